@@ -2,7 +2,8 @@ import os, re
 import core
 from checks.generic import COMMON_TRUSTED, compile_gen, first_index
 
-PROPS = ["c15_roundtrip", "c15_sync_mirror", "c15_sync_completes", "c15_mirror_reads", "c15_atomic",
+PROPS = ["c15_roundtrip", "c15_profile_roundtrip", "c15_profile_canon_idempotent", "c15_profile_save_load",
+         "c15_profile_case_is_property", "c15_profile_identity_refuted", "c15_sync_mirror", "c15_sync_completes", "c15_mirror_reads", "c15_atomic",
          "c15_restart_keeps_stores", "c15_restart_outage_reads", "c15_copier_turn", "c15_copier_lag", "c15_ghost_is_run",
          "c15_outage_reads", "c15_outage_writes", "c15_dead_frozen", "c15_cleanup_invisible",
          "c15_cleanup_purges", "c15_reads_unexpired", "c15_old_outage_reported_refuted", "c15_old_mirror_refuted",
@@ -44,7 +45,7 @@ UNPROVED = ["the gob encoding round trip of userProfile (U2F registrations, WebA
 def run(ctx):
     ctx.audit("Props.C15", PROPS)
     ctx.extract()
-    files = ["kmd/common.go", "kmd/creds.go", "kmd/faultdb.go", "kmd/vdevice.go", "kmd/storeenv.go", "kmd/c15.go",
+    files = ["kmd/common.go", "kmd/creds.go", "kmd/faultdb.go", "kmd/vdevice.go", "kmd/storeenv.go", "kmd/c15.go", "kmd/c15profile.go",
              os.path.join(ctx.work, "gen", "mux_gen.go")]
     ok, result, log = ctx.go_harness("cmd/keymasterd", "TestVerif_C15", files, timeout=1500)
     compile_gen(ctx, ("Routes.v", "Tables.v", "Consts.v"))
@@ -71,6 +72,30 @@ def run(ctx):
                 if i is not None and i < len(lines):
                     first = lines[i]
                 ctx.broken.append(("correspondence", name, {"label": label, "first_mismatch": first, "indices": (mism or "")[:400]}))
+            # the content of the profile: (saved, loaded) pairs of the real SaveUserProfile / LoadUserProfile in the
+            # representation of Model/Profile.v; model prediction canon (gob_roundtrip saved) = canon loaded
+            pm = res.get("c15_profile_mismatches")
+            npairs = res.get("c15_profile_npairs", "?")
+            plabel = "(saved, loaded) profile pairs through the real SaveUserProfile / LoadUserProfile (primary and cache): canon (gob_roundtrip saved) = canon loaded (Model/Profile.v)"
+            plines = []
+            pp = os.path.join(ctx.work, "CasesC15p.idx")
+            if os.path.exists(pp):
+                plines = open(pp, errors="replace").read().split("\n")
+            if pm == "[]" and npairs not in ("?", "0"):
+                ctx.obligations.append(("corr:%s (%s pairs)" % (plabel, npairs), True, "no mismatch"))
+            else:
+                ctx.obligations.append(("corr:" + plabel, False, "mismatch indices %s (%s pairs)" % ((pm or "missing")[:200], npairs)))
+                i = first_index(pm)
+                ctx.broken.append(("correspondence", "c15_profile_mismatches",
+                                   {"label": plabel, "first_mismatch": plines[i] if i is not None and i < len(plines) else None, "indices": (pm or "")[:400]}))
+            # ... and the property's own conclusion on the observation: canon saved = canon loaded
+            pv = first_index(res.get("c15_profile_violating") or "[]")
+            if pv is not None:
+                ctx.hits.append({"key": "C15:model-oracle:profile-content-changed",
+                                 "oracle": "the canonical content (Model/Profile.v canon, evaluated inside Coq) of the profile handed to SaveUserProfile and of what LoadUserProfile returned for that user",
+                                 "what": "a stored profile was not read back with the content that was saved (c15_profile_roundtrip)",
+                                 "case": {"pair": plines[pv] if pv < len(plines) else None, "case_index": pv},
+                                 "observed": {"class": "profile-content-changed", "pairs": (res.get("c15_profile_violating") or "")[:200]}})
             # round 2: a mismatching history on which the OBSERVATION violates the property is a failing input
             viol = res.get("c15_violating") or "[]"
             lines = []
